@@ -239,6 +239,10 @@ def _source(case, base=0, n_rdm=None, keep_rg=False):
         # descriptors whose entries are vectors (coordinates): a 2-D array / list of lists, one row per item
         rdesc['rpos'] = [[float(r), float(-r)] for r in range(n_rdm)]
         pdesc['xy'] = [[100.0 + c, 200.0 + c] for c in range(n_cond)]
+    if case.get('matrix_desc'):
+        # descriptors whose entries are MATRICES (one 2x2 transform per RDM, one 2x3 thumbnail per condition): a 3-D array
+        rdesc['rtrans'] = [[[float(r), 1.0], [2.0, float(-r)]] for r in range(n_rdm)]
+        pdesc['thumb'] = [[[10.0 + c, 20.0 + c, 30.0 + c], [40.0 + c, 50.0 + c, 60.0 + c]] for c in range(n_cond)]
     if case.get('rg') is not None and (base == 0 or keep_rg):
         rdesc['rg'] = list(case['rg'])
     if case.get('pg') is not None:
@@ -613,6 +617,14 @@ def _run_draws(case, fn_name):
         msg = _enumerate(new, fn_name, rdms, src, pred, psrc, held)
         if msg is not None:
             msg = f'same object after the caller assigned the grouping descriptors {case["then_relabel"]} in place: {msg}'
+    if msg is None and case.get('then_edit'):
+        # the caller changes the dissimilarities of the SOURCE in place (public attribute): later samples hold the current values
+        rdms.dissimilarities[...] = rdms.dissimilarities * 3 + 1
+        src = dict(src, mat=src['mat'] * 3 + 1)
+        held[:] = []
+        msg = _enumerate(case, fn_name, rdms, src, pred, psrc, held)
+        if msg is not None:
+            msg = f'same object after the caller rescaled its dissimilarities in place (x3 + 1): {msg}'
     if msg is None and case.get('held'):
         msg = _recheck_held(held)
     return msg
@@ -821,6 +833,10 @@ def _sweep_variants():
     out.append(('descriptor-dict-order', 'int', 'array', dict(desc_order='group-first', vector_desc=True)))
     out.append(('prediction-other-container', 'int', 'array-uint8', dict(pred_container='list')))
     out.append(('prediction-other-container', 'str', 'list', dict(pred_container='array-object')))
+    out.append(('matrix-valued-descriptors', 'int', 'array', dict(matrix_desc=True)))
+    out.append(('matrix-valued-descriptors', 'str', 'list', dict(matrix_desc=True, vector_desc=True)))
+    out.append(('call-sequence,source-edited-in-place', 'int', 'list', dict(then_edit=True)))
+    out.append(('call-sequence,source-edited-in-place', 'str', 'array', dict(then_edit=True, held=True)))
     out.append(('call-sequence', 'int', 'list', dict(held=True, twice=True)))   # call sequences
     out.append(('call-sequence', 'str', 'array', dict(held=True, twice=True, values='float32')))
     out.append(('call-sequence', 'int', 'array', dict(held=True, other=True)))
